@@ -410,3 +410,6 @@ def check(ctx):
         check_entry_points(ctx, cfg)
         from . import c04
         c04.check_finish_window(ctx, cfg, "C17.F")
+        # "already-read elements are dropped exactly once" rests on the builder guard's Drop releasing exactly [0, position) (C05.R, shared)
+        from . import c05 as _c05
+        _c05.check_drop_ranges(ctx, cfg)
